@@ -178,7 +178,8 @@ class Runner:
         self.refs = {}
         for label, node in world["labels"].items():
             self.data[label] = build_node(node, label)
-            self.refs[label] = self.mgr.ref(self.data[label], label)
+            # (world["label_names"]: the label the manager knows the container by, if not the internal one)
+            self.refs[label] = self.mgr.ref(self.data[label], world.get("label_names", {}).get(label, label))
         self.named_tasks = {}
 
     # -- paths -----------------------------------------------------------------
